@@ -627,3 +627,56 @@ class EnqueueOperation(FnCheck):
             ex.oblige(st, 'queued_item_is_what_the_worker_unpacks', z3.And(
                 st.box(item.py[0]) == Val.int(self.tid.e), st.box(item.py[1]) == Val.ref(self.op.e),
                 st.box(item.py[2]) == Val.ref(self.req.e), st.box(item.py[3]) == Val.ref(self.opreq.e)) if ok else z3.BoolVal(False))
+
+
+# --------------------------------------------------------------------------------------------------------------------
+# "a handler that raises yields Fail WITH error information": the error code / message are attached by the callers of
+# execute_operation in sco.py (C09.sco_handle_request, C09.worker_iteration) from the exception they catch - so the
+# exception of the handler has to reach them, whatever its class
+OPS = 'sdc11073.provider.operations'
+
+
+@register
+class ExecuteOperationIsTransparent(FnCheck):
+    id = 'C09.execute_operation_is_transparent'
+    prop = 'C09'
+    opaque_ok = True
+    target = f'{OPS}:OperationDefinitionBase.execute_operation'
+    container_hints = {'self.calls': 'list'}
+    doc = ('OperationDefinitionBase.execute_operation: the operation handler is called exactly once with the request; '
+           'what it returns is returned unchanged, and an exception it raises - of WHATEVER class - propagates to the '
+           'caller (sco.py turns it into the Fail report with error code and message); execute_operation neither '
+           'swallows it nor replaces the result')
+
+    def setup(self, b):
+        calls = b.obj('calls')
+        b.st.assume(z3.Select(b.st.get_arr('C'), calls.e) == b.ex.ctx.builtin_class_ids['list'])
+        self.result = b.obj('handler_result')
+        self.o = b.obj('self', cls=(OPS, 'OperationDefinitionBase'), calls=calls)
+        b.st.ghost['handler_calls'] = 0
+        return self.o, [b.obj('soap_request'), b.obj('operation_request', argument=b.any('argument'))], {}
+
+    def callees(self, ex):
+        def handler(ex_, st, args, kwargs):
+            st.ghost['handler_calls'] = st.ghost['handler_calls'] + 1
+            outs = []
+            for cls in ('ValueError', 'RuntimeError', 'KeyError', '*'):
+                outs.append((st.fork(), Raise(ex_.mk_exc(cls, 'operation handler'))))
+            outs.append((st, self.result))
+            return outs
+        return {'self._operation_handler': Pure(handler, name='operation handler (application code: returns or raises anything)'),
+                f'{OPS}:ExecuteParameters': Pure(lambda e, s, a, k: s.alloc('ExecuteParameters'), name='ExecuteParameters(...)'),
+                'time.time': Pure(lambda e, s, a, k: V('real', fresh(RealS, 'now')), name='time.time')}
+
+    def post(self, ex, st0, st, outcome, b):
+        n = st.ghost['handler_calls']
+        ex.oblige(st, 'handler_called_exactly_once', z3.BoolVal(n == 1))
+        if outcome[0] == 'exc':
+            ex.oblige(st, 'only_the_handler_raises', z3.BoolVal('operation handler' in outcome[1].origin), info={'exc': repr(outcome[1])})
+            return
+        ex.oblige(st, 'result_of_the_handler_is_returned_unchanged', st.box(outcome[1]) == Val.ref(self.result.e))
+
+    def finish(self, ex, st0, outcomes, b):
+        raised = {oc[1].cls for _, oc in outcomes if oc[0] == 'exc' and 'operation handler' in oc[1].origin}
+        ex.oblige(st0, 'every_handler_exception_propagates', z3.BoolVal({'ValueError', 'RuntimeError', 'KeyError', '*'} <= raised),
+                  info={'propagated': sorted(raised)})
